@@ -123,7 +123,7 @@ func coqHeader() string {
 	for f := range fuzzMapping {
 		full = append(full, f)
 	}
-	return "From C12 Require Import Model Lexer CaseDefs.\n" +
+	return "From C12 Require Import Model Lexer Legacy CaseDefs.\n" +
 		mappingTable("fm_full", fuzzMapping, full) +
 		mappingTable("fm_builtin", seq.Mapping{}, parser.VerifBuiltinFields())
 }
